@@ -104,7 +104,10 @@ func TestC18Generate(t *testing.T) {
 				single++
 			}
 		}
-		if c.NonTrivial || c.Stream == "gennames-stub" { // the stub listings include empty, failing and panicking ones (c18_gennames.go)
+		// the stub listings include empty, failing and panicking ones (c18_gennames.go); a
+		// standalone sequence is non-trivial only when a std path follows the failed render of a
+		// same-named other path (c18_standalone.go)
+		if c.NonTrivial || c.Stream == "gennames-stub" || c.Stream == "standalone-sequence" {
 			nt++
 		}
 		got := hist.NewWorld().Exec(c.Hist)
@@ -341,5 +344,46 @@ func TestC18OpOrderGenerate(t *testing.T) {
 				t.Errorf("%s: %s after/before the first rendering: %d/%d cases", kind, a, n["subject="+kind+" after-first-rendering="+a], n["subject="+kind+" before-first-rendering="+a])
 			}
 		}
+	}
+}
+
+// Stream standalone-sequence: the oracle accepts what the implementation under test does, and
+// rejects a standalone fragment that refers to a standard-library package by a numbered name
+// (what a render gives whose stand-in File still holds the imports of an earlier, failed render).
+func TestC18StandaloneSequenceOracle(t *testing.T) {
+	cases := c18StandaloneCases(rand.New(rand.NewSource(11)), "quick")
+	nt, rejected := 0, 0
+	for _, c := range cases {
+		m := c.Meta["c18sa"].(*c18saMeta)
+		got := hist.NewWorld().Exec(c.Hist)
+		if msg := c18StandaloneOracle(m, got); msg != "" {
+			t.Fatalf("oracle rejects %v: %s\n%s", c.Tags, msg, c.Hist.Sexp())
+		}
+		if !c.NonTrivial {
+			continue
+		}
+		nt++
+		// damage: number the qualifier of a std path in the last written fragment
+		for i := len(got) - 1; i >= 0; i-- {
+			if got[i].Kind != "write" || got[i].Failed {
+				continue
+			}
+			for _, j := range m.Steps[i].paths {
+				if real, std := GorootName(m.Paths[j]); std && strings.Contains(got[i].Out, real+".V") {
+					bad := append([]hist.Obs{}, got...)
+					bad[i].Out = strings.Replace(got[i].Out, real+".V", real+"1.V", 1)
+					if msg := c18StandaloneOracle(m, bad); !strings.Contains(msg, "a name nothing provides") {
+						t.Errorf("%s1 for %q is accepted: %q", real, m.Paths[j], msg)
+					} else {
+						rejected++
+					}
+					break
+				}
+			}
+			break
+		}
+	}
+	if nt < 200 || rejected < 100 {
+		t.Errorf("%d non-trivial sequences, %d damaged outputs rejected", nt, rejected)
 	}
 }
